@@ -23,6 +23,9 @@ func init() { core.Register(c05{}) }
 
 func (c05) ID() string { return "C05" }
 
+// EvalFeatures names the counters of judged executions.
+func (c05) EvalFeatures() []string { return []string{"inputs", "seeds"} }
+
 func (c05) Cases(tier string) int {
 	if tier == "thorough" {
 		return 40000
